@@ -27,6 +27,8 @@ impl Out {
         serde_json::to_writer(&mut self.w, &v).unwrap();
         self.w.write_all(b"\n").unwrap();
         self.lines += 1;
+        // a crash (abort) of the code under test must leave the case that caused it on disk
+        if v["ev"] == "case" || v["ev"] == "run" { self.w.flush().unwrap(); }
     }
     pub fn flush(&mut self) { self.w.flush().unwrap(); }
 }
